@@ -82,6 +82,8 @@ def run_one(sc):
                             fig_width=wl if len(wl) > 1 or rng.random() < 0.5 else wl[0],
                             fig_height=hl if len(hl) > 1 or rng.random() < 0.5 else hl[0], fig_align=align)
         kw = {"rtf_title": rtf.RTFTitle(text="~T~") if c["title"] else None}
+        if c.get("subline"):
+            kw["rtf_subline"] = rtf.RTFSubline(text="~SL~")
         if c["foot"]:
             kw["rtf_footnote"] = rtf.RTFFootnote(text="~FN~", as_table=False)
         if c["src"]:
@@ -120,6 +122,8 @@ def run_one(sc):
             elif b.kind == "para":
                 if b.text == "~T~":
                     E("title", p)
+                elif b.text == "~SL~":
+                    E("subline", p)
                 elif b.text == "~FN~":
                     E("foot", p)
                 elif b.text == "~SRC~":
@@ -129,7 +133,7 @@ def run_one(sc):
             elif b.kind == "row":
                 E("other", p)
     geom = [_twip(page.width), _twip(page.height)] + [_twip(m) for m in page.margin]
-    rec["c"] = {"n": c["n"], "files": files, "fw": fw, "fh": fh, "title": c["title"], "foot": c["foot"], "src": c["src"],
+    rec["c"] = {"n": c["n"], "files": files, "fw": fw, "fh": fh, "title": c["title"], "subline": bool(c.get("subline")), "foot": c["foot"], "src": c["src"],
                 "ptitle": c["ptitle"], "pfoot": c["pfoot"], "psrc": c["psrc"], "geom": geom}
     rec["ev"] = ev
     rec["struct"] = d.struct
